@@ -179,6 +179,8 @@ type End struct {
 	delay func(*goat.Rpc) bool
 	// failIf makes matching writes fail (the transport stays usable otherwise).
 	failIf func(*goat.Rpc) bool
+	// failAfter: see FailAfterDeliverIf
+	failAfter func(*goat.Rpc) bool
 	// IgnoreWriteCtx makes Write succeed even if ctx is already done.
 	IgnoreWriteCtx bool
 	// IgnoreReadCtx makes Read deaf to its context: it returns only with an envelope or a failure of the link.
@@ -330,17 +332,23 @@ func (e *End) Write(ctx context.Context, rpc *goat.Rpc) error {
 	}
 	e.mu.Lock()
 	delay := e.delay
+	failAfter := e.failAfter
+	ferr2 := e.faultErrLocked()
 	e.mu.Unlock()
+	var after error
+	if failAfter != nil && failAfter(rpc) {
+		after = ferr2
+	}
 	l := e.link
 	l.mu.Lock()
 	if (delay != nil && delay(rpc)) || len(l.inflight[e.dir]) > 0 {
 		l.inflight[e.dir] = append(l.inflight[e.dir], flight{orig: proto.Clone(rpc).(*goat.Rpc), out: out})
 		l.mu.Unlock()
-		return nil
+		return after
 	}
 	e.deliver(rpc, out)
 	l.mu.Unlock()
-	return nil
+	return after
 }
 
 // deliver queues out for the peer's Read and records it on the tap (call with link.mu held).
@@ -447,6 +455,14 @@ func (e *End) FailWriteAt(j int) {
 func (e *End) FailWriteIf(pred func(*goat.Rpc) bool) {
 	e.mu.Lock()
 	e.failIf = pred
+	e.mu.Unlock()
+}
+
+// FailAfterDeliverIf makes Write deliver a matching envelope to the peer and then report a failure all the same (a
+// transport whose write went out but whose completion could not be confirmed); nil removes it.
+func (e *End) FailAfterDeliverIf(pred func(*goat.Rpc) bool) {
+	e.mu.Lock()
+	e.failAfter = pred
 	e.mu.Unlock()
 }
 
